@@ -2805,6 +2805,16 @@ udp_server_task(void *a)
 	World   *w = h->w;
 	for (Sess *s : w->sess) {
 		s->fd = h->lfd;
+		if (s != w->sess.front()) {
+			// Requests the victim sent before it acted on our last DISC (a connected pipe's
+			// periodic refresh, retransmissions of the attempt we just ended) are stale: the
+			// pipe that sent them is gone, and an answer to them reaches nobody.  Let the victim
+			// settle, throw away what has piled up, and answer a request that is certainly new.
+			sim_quiesce(500000);
+			Bytes junk;
+			for (int i = 0; i < 100 && udp_recv(s, &junk, NULL, 0); i++)
+				sim_probe("c11_udp_stale_datagram_discarded");
+		}
 		// wait for the victim's (next) connection request
 		struct sockaddr_in from;
 		bool               got   = false;
